@@ -448,7 +448,7 @@ MANIFEST_TEXT = {
                    "returns exactly the value; Comma only adds separators to String(); decimal printing/parsing of every integer below 10^45 "
                    "are inverse; Unquote undoes quoting; FromString of any plain decimal literal (optional sign, optional integer part, optional "
                    "fraction of any length) is that number truncated toward zero to D places (saturated for f128; for f64 whenever it is an "
-                   "int64) -- Coq theorems over the byte-level model of String/FromString/CommaFromStringNum/Unquote. "
+                   "int64); the numeral parsers accept only an optional sign plus a non-empty digit run (stray bytes and empty numerals rejected, int64 range enforced) for all byte strings -- Coq theorems over the byte-level model of String/FromString/CommaFromStringNum/Unquote. "
                    "No panic on arbitrary bytes, overflowing f64 literals and CheckedAs to floats are decided per "
                    "run: byte-exact correspondence of the model with the real functions and an exact-rational oracle on the implementation's "
                    "own outputs.",
